@@ -240,6 +240,7 @@ class Bit:
     def __init__(self, nonnull=True):
         self.tables = {}
         self.lin_lb = {}   # counter symbol -> assumed lower bound
+        self.unbounded = set()   # counter symbols that stand for ANY value above their lower bound (narrowing them may wrap)
         self.cond_atoms = {}
         self._nonnull = nonnull
         self.max_visits = 80
@@ -378,6 +379,9 @@ class Bit:
         if v is TOP:
             return TOP
         if isinstance(v, Lin):
+            if op == 'trunc' and tty.a < getattr(v, 'w', 64) and any(k in getattr(self, 'unbounded', ()) for k in v.t):
+                # a length / count without an upper bound: narrowing may wrap
+                raise Unsupported('narrowing of the unbounded quantity %s to %d bits' % (', '.join(str(k) for k in v.t), tty.a))
             if op in ('zext', 'sext', 'trunc'):
                 return Lin(v.t, v.c, tty.a)
             raise Unsupported('cast of counter')
